@@ -183,3 +183,35 @@ func VH_C12_concurrent_sinks() {
 	_ = r
 	vReach("end")
 }
+
+//verif:check C15,C09 sched=coop+2 maxsteps=400000 onunwind=violation stubs=env,valuefile,abslog,snapfs onblock=violation reach=opened,end desc="a replication (or the FSM loop) opening the latest snapshot while another snapshot completes and retention (keep 1) removes older ones, with every file-system call a scheduling point and every schedule within two deviations from round robin: opening never fails (no storage fault is injected: a failure here makes the replication panic and the leader shut itself down), and the snapshot it hands out keeps its files until it is released" bounds="store holding snapshot 5, retain 1; one snapshots.open racing one snapshotSink.done for index 9"
+func VH_C15_snapshot_open_vs_retention() {
+	r := vMkRaft(1)
+	snaps := &snapshots{dir: vDir + "/snapshots", retain: 1, used: map[uint64]int{}}
+	cfg := vStableConfig("cfg", 2, 1, 1)
+	s5, err := snaps.new(5, 1, cfg)
+	vAssert(err == nil, "setup")
+	_, err = s5.done(nil)
+	vAssert(err == nil && snaps.index == 5, "setup-5-published")
+	s9, err := snaps.new(9, 1, cfg)
+	vAssert(err == nil, "setup")
+	vSnapYieldAtRename = true // the completing snapshot runs up to its publishing rename first; interleave from there
+	var got *snapshot
+	var openErr, doneErr error
+	da, db := make(chan struct{}), make(chan struct{})
+	go func() { _, doneErr = s9.done(nil); close(db) }()
+	go func() { got, openErr = snaps.open(); close(da) }()
+	<-da
+	<-db
+	vSnapYield, vSnapYieldAtRename = false, false
+	vAssert(doneErr == nil, "OR-newer-snapshot-completes")
+	vAssert(openErr == nil, "OR-opening-the-latest-snapshot-does-not-fail")
+	if openErr == nil {
+		vReach("opened")
+		vAssert(got.meta.index == 5 || got.meta.index == 9, "OR-one-of-the-two")
+		vAssert(vSLookup(vSnapFile(snaps.dir, got.meta.index)) != nil && vSLookup(vMetaFile(snaps.dir, got.meta.index)) != nil, "OR-snapshot-in-use-keeps-its-files")
+		got.release()
+	}
+	_ = r
+	vReach("end")
+}
